@@ -30,7 +30,7 @@ THEOREMS = ["C12_strip_safe", "C12_pins_present", "C12_profile_pins", "C12_confi
             "C12_pin_not_shadowed", "C12_profile_pins_all_args_refuted", "C12_inventory_pinned",
             "C12_global_args_normalised", "C12_global_args_end_in_root", "C12_no_pager", "C12_hooks_prefix_keeps_subcommand",
             "C12_ex_canonical_patch", "C12_ex_config_matters_unpinned", "C12_ex_pinned", "C12_ex_hyps", "C12_ex_global_mix",
-            "C12_header_path_decodes", "C12_header_path_quotepath_independent", "C12_ex_mixed_name"]
+            "C12_base_dir_cwd_only_when_needed", "C12_ex_base_dir", "C12_header_path_decodes", "C12_header_path_quotepath_independent", "C12_ex_mixed_name"]
 CLAIM = {
     "text": "Partial proof. Machine-checked (Coq 8.16.1, closed) over an executable Gallina model of "
             "first_git_subcommand_index, strip_profile_conflicts, profile_options, args_with_internal_git_profile, "
